@@ -32,8 +32,11 @@ package k8s
 //@   ensures [gone] err == nil ==> !(name in persisted)
 //@   ensures [others] forall n string :: {n in persisted} n != name ==> (n in persisted) == old(n in persisted)
 
-//@ func (*objectStore).Delete props C19
+// (C18) A Delete that reports success has removed the in-memory copy as well (also when the API object was already gone):
+// otherwise a cleanup that "succeeds" keeps the dead instance's condition, and its quota stays allocated.
+//@ func (*objectStore).Delete props C19, C18
 //@   modifies *
+//@   ensures [success_forgets_locally] result == nil ==> localdeletes == old(localdeletes) + 1
 //@   ensures [api_first] localdeletes > old(localdeletes) ==> !(name in persisted) && localdeletes == old(localdeletes) + 1
 //@   ensures [error_keeps_local] result != nil && localdeletes == old(localdeletes) ==> true
 //@   ensures [others] forall n string :: {n in persisted} n != name ==> (n in persisted) == old(n in persisted)
@@ -68,7 +71,7 @@ package k8s
 
 // The constructor records its arguments unchanged (the mode -- write-through or periodic -- is decided by syncPeriod alone).
 //@ func NewK8sCacheStore props C19
-//@   modifies *
+//@   modifies spawned
 //@   ensures [as_asked] typeis(result, "*objectStore") && unbox(result, "*objectStore") != nil && fresh(unbox(result, "*objectStore")) && unbox(result, "*objectStore").syncPeriod == syncPeriod && unbox(result, "*objectStore").shard == shard && unbox(result, "*objectStore").shardCount == shardCount && unbox(result, "*objectStore").gatewayClient == gatewayClient && !unbox(result, "*objectStore").stopped && unbox(result, "*objectStore").localStore != nil
 
 // An explicit flush persists every pending condition of this shard (it is the same pass Stop performs).
